@@ -1,0 +1,68 @@
+//go:build verif
+
+package nat
+
+import "github.com/cilium/ebpf"
+
+// Verification hook for property C06 (add-only; compiled only with -tags verif).
+
+// VerifC06SetMaps injects already-created kernel maps, addressed by the names
+// bpf/nat44.c declares them under, in place of the ones Start takes from the
+// loaded collection (Start needs the compiled object and a NIC).  Absent or
+// nil entries leave the corresponding field untouched; unknown names are
+// ignored.  The maps themselves are not touched.
+func (m *Manager) VerifC06SetMaps(maps map[string]*ebpf.Map) {
+	for name, mp := range maps {
+		if mp == nil {
+			continue
+		}
+		switch name {
+		case "subscriber_nat":
+			m.subscriberNAT = mp
+		case "nat_sessions":
+			m.natSessions = mp
+		case "nat_reverse":
+			m.natReverse = mp
+		case "nat_pool":
+			m.natPool = mp
+		case "nat_stats_map":
+			m.natStats = mp
+		case "nat_config_map":
+			m.natConfigMap = mp
+		case "eim_table":
+			m.eimTable = mp
+		case "hairpin_ips":
+			m.hairpinIPs = mp
+		case "alg_ports":
+			m.algPorts = mp
+		case "nat_log_rb":
+			m.natLogRB = mp
+		}
+	}
+}
+
+// VerifC06StartConfig performs the "Configure NAT flags" and "Configure default
+// ALG ports" steps of Start on the injected maps (the same values Start
+// writes; Start itself needs the compiled object and a NIC).  It returns the
+// error of the configuration write, which Start only logs.
+func (m *Manager) VerifC06StartConfig() error {
+	var cfgErr error
+	if m.natConfigMap != nil {
+		cfg := NATConfig{
+			Flags:              m.buildFlags(),
+			PortRangeStart:     uint16(m.portRangeStart),
+			PortRangeEnd:       uint16(m.portRangeEnd),
+			DefaultPortsPerSub: uint32(m.portsPerSubscriber),
+		}
+		var key uint32 = 0
+		cfgErr = m.natConfigMap.Put(&key, &cfg)
+	}
+	if m.config.EnableFTPALG {
+		m.ConfigureALG(21, 6, ALGTypeFTP, true) // FTP control (TCP)
+	}
+	if m.config.EnableSIPALG {
+		m.ConfigureALG(5060, 17, ALGTypeSIP, true) // SIP (UDP)
+		m.ConfigureALG(5060, 6, ALGTypeSIP, true)  // SIP (TCP)
+	}
+	return cfgErr
+}
